@@ -28,14 +28,15 @@ Theorem C05_scan_eq_spec_any_config :
     /\ o_rules (run_scan c Never inp sc) = spec_reported sc inp (c_nm c).
 Proof. exact run_scan_list_spec_any. Qed.
 
-(* callback API: the events delivered are those of the specification, in the same order
-   (RuleMatch / RuleNoMatch according to the event mask), and nothing is returned as a list *)
+(* callback API: after the module-import and match-limit events of the string scan (pre_events), the
+   events delivered are those of the specification, in the same order (RuleMatch / RuleNoMatch according
+   to the event mask), and nothing is returned as a list *)
 Theorem C05_callback_same :
   forall c inp sc,
     c_cb c = true -> can_noscan c = false ->
     wf_scanner inp sc = true -> ns_bound (s_nns sc) (s_globals sc) -> ns_bound (s_nns sc) (s_rules sc) ->
     o_err (run_scan c Never inp sc) = None
-    /\ o_events (run_scan c Never inp sc) = spec_events c sc inp
+    /\ o_events (run_scan c Never inp sc) = pre_events c inp ++ spec_events c sc inp
     /\ o_rules (run_scan c Never inp sc) = [].
 Proof. exact run_scan_callback_spec. Qed.
 
@@ -73,7 +74,7 @@ Example C05_example :
   let r := {| r_ns := 1; r_id := 3; r_global := false; r_private := false; r_nvars := 0; r_cond := ERule 0 |} in
   let a := {| r_ns := 0; r_id := 4; r_global := false; r_private := false; r_nvars := 0; r_cond := EBool true |} in
   let sc := {| s_globals := [g0; g1]; s_rules := [p; r; a]; s_nns := 2 |} in
-  let inp := {| i_matches := [[]]; i_ext := []; i_filesize := Some 1; i_mem := Some [97]; i_ac_checks := 0 |} in
+  let inp := {| i_matches := [[]]; i_ext := []; i_filesize := Some 1; i_mem := Some [97]; i_ac := []; i_imports := [] |} in
   wf_scanner inp sc = true
   /\ map er_id (o_rules (run_scan cfg_full Never inp sc)) = [3]
   /\ map er_id (spec_reported sc inp false) = [3].
